@@ -113,7 +113,7 @@ three different faults records all three in order. -/
 def f6Env : Env :=
   { isFrame := fun i => i ≥ 10, unwrap := fun i => if i = 0 then .one 10 else .none
     elabFn := fun i _ => if i = 10 then .seq [.item 11, .none] else .none
-    elabHide := fun _ => false, weakrefable := fun _ => true, genLike := fun _ => false
+    elabHide := fun _ => false, weakrefable := fun _ => true, genLike := fun _ => false, frameOf := fun _ => none
     withContexts := false, ctxErrs := fun _ => [] }
 
 example : run f6Env 20 (initSt f6Env 0) = .done [⟨⟨10, none⟩, false⟩, ⟨⟨11, none⟩, false⟩] .none [] := by
@@ -123,7 +123,7 @@ def faultyEnv : Env :=
   { isFrame := fun i => i ≥ 10
     unwrap := fun i => if i = 0 then .iter [some 10, some 1, some 11] (some 7) else if i = 1 then .raise 8 else .none
     elabFn := fun i _ => if i = 10 then .raise 9 else .none
-    elabHide := fun _ => true, weakrefable := fun _ => true, genLike := fun _ => false
+    elabHide := fun _ => true, weakrefable := fun _ => true, genLike := fun _ => false, frameOf := fun _ => none
     withContexts := true, ctxErrs := fun i => if i = 10 then [5] else [] }
 
 example : run faultyEnv 20 (initSt faultyEnv 0) = .done [⟨⟨10, none⟩, false⟩] .none [.hook 7, .hook 8, .hook 5, .hook 9] := by
